@@ -246,8 +246,17 @@ CLI_CONFIGS = {
                         "--plate-generator", "SampleSegregatingPermutationPlateGenerator", "--plate-generator-param", "max_plate_size=2"],
     "segregate+fixed": ["--plate-generator", "SampleSegregatingPermutationPlateGenerator", "--plate-generator-param", "max_plate_size=2",
                         "--plate-smoother", "FixedSizeSmoother", "--plate-smoother-param", "plate_size=1"],
+    # smoothers that throw wells away (a whole sample or a drug-dose can disappear from the smoothed screen)
+    "segregate+fixed2": ["--plate-generator", "SampleSegregatingPermutationPlateGenerator", "--plate-generator-param", "max_plate_size=2",
+                         "--plate-smoother", "FixedSizeSmoother", "--plate-smoother-param", "plate_size=2"],
+    "segregate+nper": ["--plate-generator", "SampleSegregatingPermutationPlateGenerator", "--plate-generator-param", "max_plate_size=2",
+                       "--plate-smoother", "NPlatePerCellLineSmoother", "--plate-smoother-param", "n_plates_per_cell_line=2"],
 }
 CLI_LEAF_CAP = {"quick": 12, "thorough": 150}
+
+
+class PairDisagreement(Exception):
+    pass
 
 
 def prepare_cli(item, chooser, tmpdir):
@@ -268,6 +277,30 @@ def prepare_cli(item, chooser, tmpdir):
     finally:
         prep.get_prng_from_seed_argument = saved
     train, test = Screen.load_h5(tr), Screen.load_h5(te)
+    # the two written halves are screens of ONE prepared simulation: a name known to both must carry one id
+    problems = []
+    maps = []
+    for half in (train, test):
+        sm = {str(n): int(i) for n, i in zip(half.sample_mapping[0], half.sample_mapping[1])}
+        sm.update({str(n): int(i) for n, i in zip(half.sample_names, half.sample_ids)})
+        tm = {(str(n), float(d)): int(i) for n, d, i in zip(*half.treatment_mapping)}
+        tm.update({(str(n), float(d)): int(i) for n, d, i in zip(half.treatment_names.ravel(), half.treatment_doses.ravel(), half.treatment_ids.ravel())})
+        maps.append((sm, tm))
+    for what, a_, b_ in (("sample", maps[0][0], maps[1][0]), ("treatment", maps[0][1], maps[1][1])):
+        for k in sorted(set(a_) & set(b_), key=repr):
+            if a_[k] != b_[k]:
+                problems.append(f"{what} {k!r} has id {a_[k]} in the training screen and id {b_[k]} in the test screen")
+    if problems:
+        raise PairDisagreement("; ".join(problems[:4]))
+    if set(maps[1][0]) - set(maps[0][0]) or set(maps[1][1]) - set(maps[0][1]):
+        # the training screen does not know every condition of the test screen: reference = union of the (consistent) mappings
+        sm = dict(maps[0][0]); sm.update(maps[1][0])
+        tm = dict(maps[0][1]); tm.update(maps[1][1])
+        skeys, tkeys = sorted(sm, key=lambda k: sm[k]), sorted(tm, key=lambda k: tm[k])
+        s_mapping = (np.array(skeys, dtype=str), np.array([sm[k] for k in skeys]))
+        t_mapping = (np.array([k[0] for k in tkeys], dtype=str), np.array([k[1] for k in tkeys], dtype=float), np.array([tm[k] for k in tkeys]))
+    else:
+        s_mapping, t_mapping = train.sample_mapping, train.treatment_mapping
     parent = Screen(
         treatment_names=np.concatenate([train.treatment_names, test.treatment_names]),
         treatment_doses=np.concatenate([train.treatment_doses, test.treatment_doses]),
@@ -275,7 +308,7 @@ def prepare_cli(item, chooser, tmpdir):
         plate_names=np.concatenate([train.plate_names, test.plate_names]),
         observations=np.concatenate([train.observations, test.observations]),
         control_treatment_name=train.control_treatment_name,
-        treatment_mapping=train.treatment_mapping, sample_mapping=train.sample_mapping,
+        treatment_mapping=t_mapping, sample_mapping=s_mapping,
     )
     return parent, train, test
 
@@ -323,9 +356,16 @@ def run_item(item, col, tier):
                 from ..explore import NondeterminismError
                 if isinstance(exc, (NondeterminismError, KeyboardInterrupt)):
                     raise
+                if isinstance(exc, PairDisagreement):
+                    return ("pair", exc, None)
                 return ("refused", exc, None)
 
         for ch, (parent, train, test) in explore(_prep, bound=(1 if item.get("cli") and tier == "quick" else (2 if item.get("cli") else None)), max_leaves=cli_cap):
+            if isinstance(parent, str) and parent == "pair":
+                col.evaluations += 1
+                col.violation("C03|ids|cli-pair", f"prepare_retrospective_simulation {item.get('cli')} (answers {ch.choices}): {train}",
+                              {"item": item, "choices": ch.choices, "half": "train", "history": []})
+                continue
             if isinstance(parent, str):
                 col.refused += 1
                 col.outcome("prepare-refused", type(train).__name__)
@@ -404,7 +444,12 @@ def finish(total, tier):
 
 def replay(case, col):
     item = case["item"]
-    parent, train, test = prepare(item, Chooser(case["choices"]))
+    try:
+        parent, train, test = prepare(item, Chooser(case["choices"]))
+    except PairDisagreement as exc:
+        col.evaluations += 1
+        col.violation("C03|ids|cli-pair", str(exc), case)
+        return
     ctx = context(parent)
     root = train if case["half"] == "train" else test
     tmpdir = env.scratch_dir("c03r")
